@@ -41,7 +41,7 @@ SPEC = {
              "the file length + 2..), where it rules nothing out. All four formats (uri three times as often, one uri case in four through inline `uris`), streamed / preloaded, "
              "1-3 passes, 1-4 ammo held; one spot in three on the last entry (long last line, also unterminated). Judged by TestDecode's oracle unchanged. "
              "Non-trivial there = a line above 4096 bytes and (>= 2 entries or several passes)."),
-    "floors": {"TestDecode/no_final_newline": 0.079, "TestDecode/uripost_zero_body": 0.08, "TestDecode/mid_file_directive": 0.15,
+    "floors": {"TestDecode/extension_method_jsonline": 0.08, "TestDecode/extension_method_raw": 0.07, "TestDecode/no_final_newline": 0.079, "TestDecode/uripost_zero_body": 0.08, "TestDecode/mid_file_directive": 0.15,
                "TestDecode/json_array": 0.02, "TestDecode/json_pretty": 0.02, "TestDecode/crlf": 0.05, "TestDecode/multi_pass": 0.4,
                "TestDecode/uripost_last_line_unterminated": 0.0013,
                "TestDecode/tag_inner_blank_run": 0.15, "TestDecode/tag_inner_tab": 0.08,
